@@ -49,7 +49,14 @@ def _one(prop: str, repo_root: str, v: Dict[str, Any]) -> Dict[str, Any]:
     res: Dict[str, Any] = {'name': v['name'], 'kind': v['kind'], 'expect': v.get('expect', [])}
     try:
         _copy_repo(Path(repo_root), tmp)
-        if 'patch' in v:
+        if 'generator' in v:
+            from . import twins
+            n = twins.rewrite_tree(tmp, v['generator'])
+            if n < 40:
+                res['status'] = 'error'
+                res['detail'] = f'twin generator rewrote only {n} files'
+                return res
+        elif 'patch' in v:
             p = subprocess.run(['patch', '-p1', '-s', '-f', '--no-backup-if-mismatch', '-d', str(tmp), '-i', v['patch']],
                                capture_output=True, text=True)
             if p.returncode != 0:
@@ -94,6 +101,9 @@ def variants_for(prop: str) -> List[Dict[str, Any]]:
     if f.exists():
         for v in json.loads(f.read_text()):
             out.append(v)
+    out.append({'name': 'generated twin: every module reformatted with ast.unparse (all line numbers, quotes and comments change)',
+                'kind': 'twin', 'generator': 'unparse'})
+    out.append({'name': 'generated twin: every local variable of every function renamed', 'kind': 'twin', 'generator': 'rename'})
     if SEEDED.is_dir():
         for d in sorted(SEEDED.iterdir()):
             m = d / 'meta.json'
